@@ -67,6 +67,7 @@ CHECKS = {
          "proved to be the matching registration of highest priority with the latest stamp; detector closure = the documented criteria.", "DESIGN 3 C16"),
 }
 NA = {
+ "C06": "not claimed: deciding it needs a relational (two-run) verification of data_first_parse against field_first_parse; the shape-bounded mode planned for it (DESIGN 2.9) was not built, and the two loops are not under contract (only their callees are) - no check exists, so nothing is claimed",
  "C08": "oracle is CPython's own argument binding and the generator/async protocol; the VC generator has no semantics for yield/await (DESIGN 4)",
  "C14": "round trip runs through isoformat/strptime/regex/repr string formats that neither solver decides; axiomatising them would assume the property (DESIGN 4)",
  "C20": "schedules: contracts here are sequential, no thread semantics or rely/guarantee checker in the sandbox (DESIGN 4)",
